@@ -29,7 +29,7 @@ LEVEL_TEXT = ('Model checking: every reduction and knee subset of every small no
               'outputs of the reference recomputation of the documented rule, and every index must be valid.')
 LEVEL_NOTE = 'Bounded by n and alphabet.'
 
-TXY = [(0.05, 0.05), (0.2, 0.3), (0.3, 0.1), (0.25, 0.25)]
+TXY = [(0.05, 0.05), (0.2, 0.3), (0.3, 0.1), (0.25, 0.25), (0.125, 0.5)]     # the last two: dyadic, exact width AND height ties
 
 
 def units(tier, seed):
@@ -38,7 +38,7 @@ def units(tier, seed):
         plan.append((curves.scaled(curves.G12Y013 if tier == 'quick' else curves.A12, sx, sy).name, 4, 8))
         plan.append((curves.scaled(curves.Y013, sx, sy).name, 5, 4))
     plan += [('Tweb0r', 7, 8), ('Tusr0s64', 7, 16)] if tier == 'quick' else [('Tweb0r', 9, 8), ('Tusr0s64', 9, 16)]
-    extra = [(0.1, 0.2), (0.25, 0.25), (0.125, 0.5), (0.4, 0.05), (0.15, 0.15), (0.05, 0.6)][seed % 6]
+    extra = [(0.1, 0.2), (0.5, 0.25), (0.0625, 0.5), (0.4, 0.05), (0.15, 0.15), (0.05, 0.6)][seed % 6]
     return [(prof, n, k, K, tier, extra) for prof, n, K in plan for k in range(K)]
 
 
